@@ -152,8 +152,10 @@ impl<L: ChainListener> ChainTracker<L> {
 
 } // impl
 
-//@fn vls-core/src/chain/tracker.rs :: - :: validate_retarget mode=trusted
-    ensures r.is_ok() ==> retarget_ok(prev_target, target, network),
+//@fn vls-core/src/chain/tracker.rs :: - :: validate_retarget props=C13
+    ensures r.is_ok() ==> retarget_ok(prev_target, target, network),                                 //[C13.retarget.within-window-and-limit]
+// the nested helper gets a contract too (its one-line body stays the real one and is verified)
+//@sub /fn round_trip_target\(target: Target\) -> Target \{/ => fn round_trip_target(target: Target) -> (r: Target) ensures r == spec_rt(target) {
 //@end
 
 } // verus!
